@@ -322,6 +322,25 @@ func (ex *Exec) GPartsSince(pre, post *SymDB, since *Term) []namedTerm {
 		cs = append(cs, tt.SLe(p.nextSort, q.nextSort))
 		out = append(out, namedTerm{"G2:tasks", tt.And(cs...)})
 	}
+	if p, pp := pre.tabs["tasks"], pre.tabs["promises"]; p != nil && pp != nil {
+		// G6 (C08): a promise's outstanding tasks are finished in the step that completes it: if a promise row leaves
+		// the pending state between pre and post, every task that was there before with that root is finished after.
+		// (Transitive: once finished a task is frozen by G2; tasks that appear later are not constrained.)
+		q, qp := post.tabs["tasks"], post.tabs["promises"]
+		var cs []*Term
+		for i := range pp.rows {
+			a, b := pp.rows[i], qp.rows[i]
+			completed := tt.And(a.present, b.present, tt.Eq(pp.c(a, "state").v, tt.BV(1, 64)), tt.Not(tt.Eq(qp.c(b, "state").v, tt.BV(1, 64))))
+			var ts []*Term
+			for j := range p.rows {
+				ta, tb := p.rows[j], q.rows[j]
+				mine := tt.And(ta.present, tt.Eq(p.c(ta, "root_promise_id").v, pp.c(a, "id").v))
+				ts = append(ts, tt.Implies(mine, ex.inStates(q.c(tb, "state").v, 8, 16)))
+			}
+			cs = append(cs, tt.Implies(completed, tt.And(ts...)))
+		}
+		out = append(out, namedTerm{"G6:tasks-finished-with-their-promise", tt.And(cs...)})
+	}
 	if p := pre.tabs["callbacks"]; p != nil {
 		// G3: a registration is only removed by the completion of its promise
 		q := post.tabs["callbacks"]
